@@ -149,4 +149,7 @@ func TestBounded_C10(t *testing.T) {
 		bCheckNav(t, fmt.Sprintf("seed=%d bf=%d\n", seed, bf), m, model, -1, 49)
 	}
 	bStat("C10.random_trees", seeds)
+	// stepping under transient store faults: a failed step is retried and the walk still visits
+	// exactly the sorted keys (shared with the C12 check)
+	bCursorFaultsFor(t, "C10")
 }
